@@ -569,6 +569,21 @@ func (w *c17World) cookieHeaderFor(mode int, fl *c17Flow) (string, string) {
 			return fl.cookieName + "=" + fl.cookieValue, "saved-authentic-cookie"
 		}
 		return "", "no-cookies"
+	case 10:
+		// the answered flow's authentic cookie, plus a cookie that carries another flow's name but does not decode
+		// (meant to go with a RelayState naming that other cookie)
+		if fl.cookieName == "" {
+			return "", "no-cookies"
+		}
+		name, val := "saml_zzz", "garbage"
+		if other != nil && other.cookieName != "" {
+			name = other.cookieName
+			val = other.cookieValue[:len(other.cookieValue)/2] + "AAAA" + other.cookieValue[len(other.cookieValue)/2:]
+			if r.Intn(3) == 0 {
+				val = "not-a-token"
+			}
+		}
+		return fl.cookieName + "=" + fl.cookieValue + "; " + name + "=" + val, "authentic-plus-undecodable:" + strings.TrimPrefix(name, "saml_")
 	default:
 		var parts []string
 		for _, o := range w.flows {
@@ -707,7 +722,7 @@ func runC17(c *core.Ctx) {
 					continue
 				}
 				fl := cands[r.Intn(len(cands))]
-				cm := r.Intn(10)
+				cm := r.Intn(11)
 				if r.Intn(3) == 0 {
 					cm = 0
 				}
@@ -717,6 +732,9 @@ func runC17(c *core.Ctx) {
 					rm = 0
 				}
 				relay, has, rdesc := w.relayFor(rm, fl)
+				if strings.HasPrefix(cdesc, "authentic-plus-undecodable:") && r.Intn(4) != 0 {
+					relay, has, rdesc = strings.TrimPrefix(cdesc, "authentic-plus-undecodable:"), true, "names-the-undecodable-cookie"
+				}
 				d := &c17Delivery{flow: fl, cookies: h, relay: relay, hasRS: has, main: cm == 0, desc: fmt.Sprintf("deliver(%d,%s,%s)", fl.k, cdesc, rdesc)}
 				w.deliver(d)
 				w.lastDel = d
